@@ -7,7 +7,7 @@ use std::rc::Rc;
 
 use serde::{Deserialize, Serialize};
 
-use crate::cfg::AvailableValueMap;
+use crate::cfg::{AvailableValueMap, MathOp};
 use crate::parser::{
     CsrImm, HasRegisterSets, InstructionProperties, LabelString, LabelStringToken,
     RegisterProperties,
@@ -325,15 +325,23 @@ fn rule_perform_math_ops(
             (
                 Some(AvailableValue::OriginalRegisterWithScalar(new_reg, x)),
                 Some(AvailableValue::Constant(y)),
-            )
-            | (
-                Some(AvailableValue::Constant(x)),
-                Some(AvailableValue::OriginalRegisterWithScalar(new_reg, y)),
             ) => node
                 .inst()
                 .scalar_op()
                 .map(|op| op.operate(x, y))
                 .map(|z| AvailableValue::OriginalRegisterWithScalar(new_reg, z)),
+            // With the constant on the left only a commutative operation keeps
+            // the "original register plus scalar" shape (c - reg is not one)
+            (
+                Some(AvailableValue::Constant(x)),
+                Some(AvailableValue::OriginalRegisterWithScalar(new_reg, y)),
+            ) => match node.inst().scalar_op() {
+                Some(MathOp::Add) => Some(AvailableValue::OriginalRegisterWithScalar(
+                    new_reg,
+                    MathOp::Add.operate(x, y),
+                )),
+                _ => None,
+            },
             (_, _) => None,
         };
         if let Some(val) = result {
